@@ -141,8 +141,11 @@ def spec(state, c):
 
 
 def permitted_refusal(c, calls):
-    """the two deviations the property allows, judged from the history alone"""
+    """the two deviations the property allows, judged from the history alone (plus C08's
+    transient stale-extent error of a read racing with a rewrite: the call took no effect)"""
     r = c["resp"][0]
+    if r == "error" and len(c["resp"]) > 1 and c["resp"][1] == "StaleExtent":
+        return any(x is not c and x["call"] < c["ret"] and x["ret"] > c["call"] for x in calls)
     if r == "older":
         ts = op_ts(c)
         for x in calls:
